@@ -1122,7 +1122,7 @@ func (p *parser) readGlyphList() []glyph.ID {
 			next = append(next, gid)
 
 		case itemString:
-			for r := range decodeString(item.val) {
+			for _, r := range decodeString(item.val) {
 				gid := p.cmap.Lookup(r)
 				if gid == 0 {
 					p.fatal("rune %q not in mapped in font", r)
@@ -1388,35 +1388,32 @@ func (p *parser) optionalIdentifier(name string) bool {
 	return true
 }
 
-func decodeString(s string) <-chan rune {
-	c := make(chan rune)
-	go func() {
-		s := s[1 : len(s)-1]
-		escape := false
-		for _, r := range s {
-			if escape {
-				escape = false
-				switch r {
-				case 'n':
-					c <- '\n'
-				case 'r':
-					c <- '\r'
-				case 't':
-					c <- '\t'
-				default:
-					c <- r
-				}
-				continue
+func decodeString(s string) []rune {
+	var res []rune
+	s = s[1 : len(s)-1]
+	escape := false
+	for _, r := range s {
+		if escape {
+			escape = false
+			switch r {
+			case 'n':
+				res = append(res, '\n')
+			case 'r':
+				res = append(res, '\r')
+			case 't':
+				res = append(res, '\t')
+			default:
+				res = append(res, r)
 			}
-			if r == '\\' {
-				escape = true
-				continue
-			}
-			c <- r
+			continue
 		}
-		close(c)
-	}()
-	return c
+		if r == '\\' {
+			escape = true
+			continue
+		}
+		res = append(res, r)
+	}
+	return res
 }
 
 func isIdentifier(i item, val string) bool {
